@@ -7,6 +7,7 @@ import (
 	"fmt"
 	"os"
 	"os/exec"
+	"strconv"
 	"strings"
 	"testing"
 
@@ -219,7 +220,7 @@ func C13spectool(c *vh.Ctx) {
 	// the commands that edit a specification (read YAML, parse patterns, apply the edit, write YAML)
 	{
 		var idx uint64
-		pats := []string{`{"ctl":"cancel"}`, `{"device":17}`, `{"v":1.5}`, `{"l":[1,"a",true,null]}`, `{"n":{"deep":[{"k":2}]}}`, `17`, `"?anything"`, `{"big":12345678901234567890}`, `{"e":1e3}`}
+		pats := []string{`{"ctl":"cancel"}`, `{"device":17}`, `{"v":1.5}`, `{"l":[1,"a",true,null]}`, `{"n":{"deep":[{"k":2}]}}`, `17`, `"?anything"`, `{"id":9007199254740993}`, `{"n":123456789}`, `{"e":1e3}`}
 		for _, pt := range pats {
 			for _, parse := range []bool{true, false} {
 				idx++
@@ -237,7 +238,7 @@ func C13spectool(c *vh.Ctx) {
 			}
 		}
 	}
-	c.Rule("(spectool) a five-node specification with emitting, failing and branch-less action nodes and a branch to a node that may not exist, under every combination of the settings {noErrorNode, errorNode in {none, a name of its own, an existing node}, actionErrorBranches, actionErrorNode, inline patterns / JSON-text patterns}, written as YAML and as JSON and converted by the repository's own commands (yamltojson, yamltojson -p, jsontoyaml, yamltojson then jsontoyaml, analyze = decode, parse patterns, write YAML): the complete behaviour tree of the output over all message sequences up to the bound must equal that of the Go-structure rendering. The editing commands (addMessageBranches with and without -P over patterns that hold strings, integers, fractions, big and exponent-form numbers, arrays, nested maps, a bare number, a bare variable; addOrderedOutMessages over lists of messages with numbers, arrays, nested maps): the specification they write, loaded, must behave like the same edit made on the Go structures (the pattern instances are among the messages).")
+	c.Rule("(spectool) a five-node specification with emitting, failing and branch-less action nodes and a branch to a node that may not exist, under every combination of the settings {noErrorNode, errorNode in {none, a name of its own, an existing node}, actionErrorBranches, actionErrorNode, inline patterns / JSON-text patterns}, written as YAML and as JSON and converted by the repository's own commands (yamltojson, yamltojson -p, jsontoyaml, yamltojson then jsontoyaml, analyze = decode, parse patterns, write YAML): the complete behaviour tree of the output over all message sequences up to the bound must equal that of the Go-structure rendering. The editing commands (addMessageBranches with and without -P over patterns that hold strings, integers, fractions, large (beyond 2^53) and exponent-form numbers, arrays, nested maps, a bare number, a bare variable; addOrderedOutMessages over lists of messages with numbers, arrays, nested maps): the specification they write, loaded, must behave like the same edit made on the Go structures (the pattern instances are among the messages).")
 	var idx uint64
 	for _, ne := range []bool{false, true} {
 		for _, en := range []string{"", "failed", "n1"} {
@@ -309,7 +310,9 @@ func stModOne(c *vh.Ctx, mc stModCase, maxLen int) {
 				c.NotExhaustive("bad pattern text in the harness: " + err.Error())
 				return
 			}
-			addMsgsOf(pattern)
+			if !strings.Contains(mc.Pattern, "?") {
+				addMsgsOf(pattern) // an instance of the pattern (a pattern with variables is not a message)
+			}
 		}
 		if err := AddMessageBranches(base, pattern, "n1"); err != nil {
 			c.NotExhaustive("AddMessageBranches: " + err.Error())
@@ -349,6 +352,40 @@ func stModOne(c *vh.Ctx, mc stModCase, maxLen int) {
 		return
 	}
 	if got := stTraceOver(sp, maxLen, msgs, start); got != want {
+		if n, lossy := beyondFloat32(mc.Pattern); lossy {
+			// the YAML library the repository writes with renders every float with 32-bit precision
+			c.Violation("C13/spectool/yaml-output-rounds-numbers-to-float32/"+mc.Mod, fmt.Sprintf("spectool %s: the number %v in the pattern does not survive the YAML the tool writes (the specification it writes behaves differently from the same edit made on the Go structures: %s)", args, n, firstDiff(got, want)), mc)
+			return
+		}
 		c.Violation("C13/spectool/output-behaves-differently/"+mc.Mod, fmt.Sprintf("the specification written by spectool %s behaves differently from the same edit made on the Go structures: %s", args, firstDiff(got, want)), mc)
 	}
+}
+
+// beyondFloat32 reports a number in the JSON text that changes when it is written with 32-bit precision.
+func beyondFloat32(text string) (float64, bool) {
+	var x interface{}
+	if json.Unmarshal([]byte(text), &x) != nil {
+		return 0, false
+	}
+	var found float64
+	lossy := false
+	var walk func(x interface{})
+	walk = func(x interface{}) {
+		switch v := x.(type) {
+		case float64:
+			if back, err := strconv.ParseFloat(strconv.FormatFloat(v, 'g', -1, 32), 64); err != nil || back != v {
+				found, lossy = v, true
+			}
+		case []interface{}:
+			for _, e := range v {
+				walk(e)
+			}
+		case map[string]interface{}:
+			for _, e := range v {
+				walk(e)
+			}
+		}
+	}
+	walk(x)
+	return found, lossy
 }
